@@ -396,8 +396,18 @@ func (b *Bucket) OpenUploadStreamWithID(ctx context.Context, id interface{}, nam
 		chunkSize = int(*opt.ChunkSizeBytes)
 	}
 
+	// copy metadata as the caller may change it before the stream is closed
+	metadata := opt.Metadata
+	if metadata != nil {
+		doc, err := bsonkit.Transform(metadata)
+		if err != nil {
+			return nil, err
+		}
+		metadata = *doc
+	}
+
 	// create stream
-	stream := newUploadStream(ctx, b, id, name, chunkSize, opt.Metadata)
+	stream := newUploadStream(ctx, b, id, name, chunkSize, metadata)
 
 	return stream, nil
 }
